@@ -2,6 +2,7 @@ package props
 
 import (
 	"bytes"
+	"database/sql/driver"
 	"fmt"
 	"io"
 	"math"
@@ -14,10 +15,12 @@ import (
 	"github.com/tobgu/qframe/config/groupby"
 	"github.com/tobgu/qframe/config/newqf"
 	"github.com/tobgu/qframe/config/rolling"
+	qsql "github.com/tobgu/qframe/config/sql"
 	"github.com/tobgu/qframe/types"
 	"pgregory.net/rapid"
 
 	"verifharness/ev"
+	"verifharness/faults"
 	"verifharness/hx"
 )
 
@@ -730,6 +733,19 @@ func genChainOp(t *rapid.T, healthyPossible bool) chainOp {
 	}
 }
 
+// c10ReadSQL reads a served result set through the in-memory driver.
+func c10ReadSQL(cols []string, rows [][]driver.Value, fns ...qsql.ConfigFunc) qframe.QFrame {
+	m, db := faults.New()
+	defer m.Release(db)
+	m.Cols, m.Rows = cols, rows
+	tx, err := db.Begin()
+	if err != nil {
+		panic(err)
+	}
+	defer tx.Rollback()
+	return qframe.ReadSQL(tx, append([]qsql.ConfigFunc{qsql.Query("select * from t")}, fns...)...)
+}
+
 // c10Base: two int, a float, a bool, a string, two declared enum columns and an id.
 func c10Base(t *rapid.T) hx.Table {
 	n := rapid.IntRange(0, 12).Draw(t, "n")
@@ -775,7 +791,7 @@ func TestC10(t *testing.T) {
 	rapid.Check(t, func(t *rapid.T) {
 		base := c10Base(t)
 		var qf qframe.QFrame
-		start := rapid.IntRange(0, 9).Draw(t, "start")
+		start := rapid.IntRange(0, 14).Draw(t, "start")
 		startDesc := "derived frame"
 		switch start {
 		case 0:
@@ -790,11 +806,33 @@ func TestC10(t *testing.T) {
 		case 3:
 			qf = qframe.ReadJSON(strings.NewReader(`[{"a": 1}, {"b": 2}`), newqf.Enums(map[string][]string{"zz": nil}))
 			startDesc = "ReadJSON of broken JSON"
+		case 4:
+			// a coercion for a column the result set does not have (the reader's own comment: "ensure any column in the
+			// coercion map exists in the resulting columns or return an error explicitly")
+			qf = c10ReadSQL([]string{"a", "b"}, [][]driver.Value{{int64(1), "x"}, {int64(0), "y"}},
+				qsql.Coerce(qsql.CoercePair{Column: rapid.SampledFrom([]string{"never-created-col", "A", "a ", "ab", ""}).Draw(t, "coercecol"), Type: qsql.Int64ToBool}))
+			startDesc = "ReadSQL with a coercion for a column that is not in the result set"
+		case 5:
+			k := rapid.IntRange(0, 2).Draw(t, "sqlmisuse")
+			switch k {
+			case 0:
+				qf = c10ReadSQL([]string{"a"}, [][]driver.Value{{"x"}}, qsql.Coerce(qsql.CoercePair{Column: "a", Type: qsql.Int64ToBool}))
+				startDesc = "ReadSQL coercing a text column with Int64ToBool"
+			case 1:
+				qf = c10ReadSQL([]string{"a"}, [][]driver.Value{{"1.5"}, {"x"}}, qsql.Coerce(qsql.CoercePair{Column: "a", Type: qsql.StringToFloat}))
+				startDesc = "ReadSQL coercing a text that is no number with StringToFloat"
+			default:
+				qf = c10ReadSQL([]string{"a"}, [][]driver.Value{{int64(1)}}, qsql.Coerce(qsql.CoercePair{Column: "a", Type: qsql.StringToFloat}))
+				startDesc = "ReadSQL coercing an int column with StringToFloat"
+			}
+		case 6:
+			qf = qframe.ReadCSV(strings.NewReader("a,b\n1,2\n"), csv.Types(map[string]string{"a": "int"}), csv.EnumValues(map[string][]string{"a": {"1"}}))
+			startDesc = "ReadCSV with enum values for a column declared int"
 		default:
 			d := hx.GenDerived(t, base, 3)
 			qf = d.QF
 		}
-		if start <= 3 && qf.Err == nil {
+		if start <= 6 && qf.Err == nil {
 			t.Fatalf("%s did not report an error", startDesc)
 		}
 		nops := rapid.IntRange(1, 8).Draw(t, "nops")
